@@ -123,7 +123,7 @@ func C11Scenarios(tier string) []*h.Scenario {
 		names := initialNames(gg.ASG.Name, 5)
 		s.Events = func(hh *h.Hist, slot int) []h.Event {
 			ev := fixedNodeEvents(gg, names)
-			ev = append(ev, evRestart(), evRefreshFails(), evASGEdit(gg.ASG.Name, 4, 8), evASGEdit(gg.ASG.Name, 0, 8))
+			ev = append(ev, evRestart(), evRefreshFails(), evRefreshDown(), evASGEdit(gg.ASG.Name, 4, 8), evASGEdit(gg.ASG.Name, 0, 8))
 			return ev
 		}
 		out = append(out, s)
